@@ -1,12 +1,12 @@
 #!/bin/sh
 # Re-runs the checks on the behaviour-preserving refactorings in /tmp/wt/B?.out that
-# still raise alarms (per /tmp/benign/<name>.txt), only for the properties that alarmed.
+# still raise alarms (per /tmp/benign2/<name>.txt), only for the properties that alarmed.
 cd /verif
-ls /tmp/benign/*.txt | while read f; do
+ls /tmp/benign2/*.txt | while read f; do
   n=$(basename $f .txt); g=${n%_*}; k=${n#*_}
   props=$(grep "BAD" $f | sed 's/.*property=\(C..\).*/\1/' | sort -u | paste -sd,)
   [ -n "$props" ] && echo "$n $g $k $props"
-done > /tmp/benign/todo.lst
-cat /tmp/benign/todo.lst | xargs -P 6 -L 1 sh -c 'scripts/seedcheck.sh /tmp/wt/$1.out/refactor_$2.patch $3 > /tmp/benign/$0.txt 2>&1'
-for f in /tmp/benign/B*.txt; do c=$(grep '^count=' $f); [ "$c" != "count=0" ] && echo "$(basename $f .txt) $c"; done
-cat /tmp/benign/B*.txt | grep "BAD" | sed 's/^ *BAD property=\(C..\) status=\([a-z]*\) key=\([A-Za-z]*-[0-9a-z]*\):.*/\1 \3 \2/' | sort | uniq -c | sort -rn
+done > /tmp/benign2/todo.lst
+cat /tmp/benign2/todo.lst | xargs -P 6 -L 1 sh -c 'scripts/seedcheck.sh /tmp/wt/$1.out/refactor_$2.patch $3 > /tmp/benign2/$0.txt 2>&1'
+for f in /tmp/benign2/R*.txt; do c=$(grep '^count=' $f); [ "$c" != "count=0" ] && echo "$(basename $f .txt) $c"; done
+cat /tmp/benign2/R*.txt | grep "BAD" | sed 's/^ *BAD property=\(C..\) status=\([a-z]*\) key=\([A-Za-z]*-[0-9a-z]*\):.*/\1 \3 \2/' | sort | uniq -c | sort -rn
